@@ -209,6 +209,7 @@ class PolarsSchemaBackend(BaseSchemaBackend):
                 scalar_failure_cases["index"].append(None)
                 failure_cases_df = pl.DataFrame(scalar_failure_cases).cast(
                     {
+                        "failure_case": pl.Utf8,
                         "check_number": pl.Int32,
                         "column": pl.String,
                         "index": pl.Int32,
